@@ -269,11 +269,11 @@ PROPS['C02'] = dict(lean=['Mkdb.Props.C02'], facts=STORE_FACTS, runs=[dict(cmd='
     rule='12 (thorough 96) histories of 5-40 statements over up to 4 tables with flush probability in {0,15,40,100}%, crash probability in {10,25,50}% per statement, failing statements mixed in; wal codec: 40 (thorough 320) record lists, every cut position of short logs, random cuts and damaged bytes otherwise. Non-trivial: a history with at least one crash after an unflushed change; distinct by operation text.',
     assumptions=['a crash loses the page cache and nothing else: log records are fsynced before a statement returns (forceSync) and the data file is only written by flushPages', 'InitStorage runs alone (no concurrent session)'],
     trusted_base=['models Mkdb/Model/Store.lean, Engine.lean (recover), Wal.lean, Redo.lean; hooks VerifFlush/VerifAbandon/VerifDump/VerifWal*'])
-PROPS['C11'] = dict(lean=['Mkdb.Props.C11'], facts=STORE_FACTS, runs=[dict(cmd='db', proto='db', args=['c01'], corpus='C11')],
+PROPS['C11'] = dict(lean=['Mkdb.Props.C11'], facts=STORE_FACTS, runs=[dict(cmd='db', proto='db', args=['c01'], corpus='C11'), dict(cmd='db', proto='db', args=['c02'])],
     sig_filter=r'db:shape:.*', 
     claim="Proof: C11_every_history - after any history, of any length, of insertions with ascending keys, value changes and deletions starting from a freshly created table, the tree satisfies the invariant Inv of Spec/TreeInv.lean, which is the C11 statement clause by clause: no node over capacity, keys strictly ascending within and across leaves, every separator the lowest key of the subtree to its right, every level's child pointers exactly the nodes of the level below in order (all leaves at one depth, one parent per node), no page twice and all below the allocation frontier, the doubly linked leaf chain equal to the leaves in tree order; C11_insert_preserves covers leaf split, separator propagation, internal splits at every depth and root growth by induction over the levels; C11_lookup_finds_every_key - in a well-formed tree every stored key is found by findCell's routing from the root. C11_heap_insert_is_levels_insert, C11_heap_insert_refusals, C11_heap_lookup_finds_every_key: insertLeaf/insertInternal/findLeaf of the heap model, on pages addressed by offset, are proved equal to the levels operations for every store, depth and key (refinement), so the invariant theorems hold of the heap model that is compared with the implementation page for page; C11_cross_check_never_fires. The tie to the code: every insert the heap model performs - and the heap model is compared page for page with the implementation - is re-done by insertAppend on the tree read out of the heap and every page, the root and the allocation frontier are compared (Store.ghostAgrees; a disagreement breaks the correspondence); independently the judge walks the implementation's own page graph from every table root with the executable shape checker Spec/Shape.lean (both chain directions, depth, bounds, reachability, lookup of every key).",
     note=STORE_NOTE,
-    rule='as C01 (same histories): every insert in them is cross-checked against the levels model (about 1500-9000 inserts per quick run, including the first internal-node split in the deep history), the shape checker runs on every heap dump (every 7 statements and at the end). Non-trivial: a history with a leaf split; distinct by operation text. Internal splits at depth >= 2 need more than 190000 rows and are covered by the theorem only.',
+    rule='as C01 (same histories) plus the crash-and-recovery histories of C02 (a reload in real use always runs start-up recovery over the whole log; the trees it rebuilds are shape-checked right after every recovery): every insert in them is cross-checked against the levels model (about 1500-9000 inserts per quick run, including the first internal-node split in the deep history), the shape checker runs on every heap dump (every 7 statements and at the end). Non-trivial: a history with a leaf split; distinct by operation text. Internal splits at depth >= 2 need more than 190000 rows and are covered by the theorem only.',
     assumptions=['keys arrive in ascending order per tree (engine: shared counter; replay: logged ids)'],
     trusted_base=['models Mkdb/Model/Tree.lean, Store.lean; Spec/TreeInv.lean (invariant), Spec/Shape.lean (executable checker on dumps)'])
 PROPS['C14'] = dict(lean=['Mkdb.Props.C14'], facts=STORE_FACTS, runs=[dict(cmd='db', proto='db', args=['c14'])],
@@ -298,7 +298,7 @@ PROPS['C14'] = dict(lean=['Mkdb.Props.C14'], facts=STORE_FACTS, runs=[dict(cmd='
 
 PROPS['C03'] = dict(lean=['Mkdb.Props.C03'], facts=STORE_FACTS, runs=[dict(cmd='db', proto='db', args=['c03']), dict(cmd='wal', proto='wal')],
     sig_filter=r'(db:(image-.*|panic:.*|hang:.*)|wal:.*)',
-    claim='Proof (partial): C03_cut_is_prefix - for every list of records and EVERY byte position at which the log file is cut, wal.read (byte-level model) returns exactly the records whose frames lie completely inside the cut: a maximal prefix, never half a record, never an error, flagged torn exactly when the cut is inside a frame; C03_append_after_cut - after the reader truncated the torn tail, later appends are read back right behind the surviving prefix; C03_roundtrip. Not covered by a theorem: that replaying a record prefix yields the table state "before the statement plus a prefix of its row operations" (records are one per row operation in statement order, a root move adds a catalog record) - that is the concrete recovery model, compared with the implementation. Tie: crash images of data/ taken by a hook immediately before every length write, body write and fsync of the log during multi-row INSERT/UPDATE/DELETE statements (log cut at the last write and at the last fsync), real InitStorage in a child process on each image, SELECT * of every table, then probe statements; the judge requires recovery to succeed, every table to equal one of the row-prefix states of the spec, and the probes to behave as on an uncrashed database in that state; the wal run compares encoder, reader and file truncation byte for byte with the model.',
+    claim='Proof (partial): C03_cut_is_prefix - for every list of records and EVERY byte position at which the log file is cut, wal.read (byte-level model) returns exactly the records whose frames lie completely inside the cut: a maximal prefix, never half a record, never an error, flagged torn exactly when the cut is inside a frame; C03_append_after_cut - after the reader truncated the torn tail, later appends are read back right behind the surviving prefix; C03_roundtrip. C03_insert_crash_leaves_row_prefix / C03_delete_crash_leaves_row_prefix / C03_update_crash_leaves_row_prefix: after any history of acknowledged statements, a crash that cuts the append of a multi-row INSERT, a DELETE or an UPDATE after ANY number k of its records is recovered (replay of the surviving log by the concrete recovery model) to a store that abstracts to a plain database in which the table of the statement holds one of the row-prefix states of Spec.rowPrefixStates - the list the judge of the crash-image runs uses - every other table is untouched and the row-id counter has advanced by exactly the rows applied; a root-moving insert logs two records and the cut between them is covered (the INSERT record alone re-points the catalog); C03_log_cut_is_statement_prefix at the storage level for any mix of row operations. Scenario of these theorems: nothing of the history was flushed since the start state (flushes between earlier statements: C02/C04). Not covered by a theorem: the composition of the byte-level and the record-level halves through wal.read of the concrete bytes of these very records (the encoder of the engine records is compared with the model by the wal run). Tie: crash images of data/ taken by a hook immediately before every length write, body write and fsync of the log during multi-row INSERT/UPDATE/DELETE statements (log cut at the last write and at the last fsync), real InitStorage in a child process on each image, SELECT * of every table, then probe statements; the judge requires recovery to succeed, every table to equal one of the row-prefix states of the spec, and the probes to behave as on an uncrashed database in that state; the wal run compares encoder, reader and file truncation byte for byte with the model.',
     note='Trusted: Lean kernel (axioms propext, Classical.choice, Quot.sound only), the hand-written models, the harness and hooks, the OS file system behaving as a byte array per file with fsync making earlier writes durable. Theorems are about the models; the code is covered through the correspondence and the judge, which are bounded.',
     rule='6 (thorough 48) histories, each with crash images at every log write/sync of 2-4 multi-row statements (typically 20-60 images per history) and 3 probe statements per image; wal: as C02. Non-trivial: an image whose log ends inside the statement; distinct by image operation text.',
     assumptions=['a write(2) on the log may be torn at any byte; fsync makes earlier writes durable', 'the data file is not written while the statement runs (C13)'],
